@@ -1,4 +1,8 @@
 import StraxModel.Model.Pulse
+/-
+  Lemmas about the data reduction of theory T14 (property C18): `copyRange` / `applyCopy` / `copyVia` pointwise,
+  one hit (`cutHit_spec`), the hit loop, and `cutOutsideHits_spec`.  Core Lean only.
+-/
 namespace Strax.Pulse
 
 /-! ### data reduction -/
